@@ -224,15 +224,29 @@ def writers_of_field(prog, field, crates=None, kinds=("assign", "refmut", "call_
     return out
 
 
-def check_who_may(ctx, rule, what, actual, allowed, locs=None, required=None):
-    """actual: set of keys; allowed: dict key->reason or set.  One obligation per actual key."""
+def check_who_may(ctx, rule, what, actual, allowed, locs=None, required=None, helpers=True):
+    """actual: set of keys; allowed: dict key->reason or set.  One obligation per actual key.  With helpers=True a function that is not in
+    the table is accepted when all of its callers are (a helper extracted from an allowed function does not change who may do the thing);
+    pass helpers=False where the *shape* of the allowed functions matters (e.g. a loop discipline checked on them)."""
     allowed_keys = set(allowed)
     ok_all = True
+    prog = getattr(ctx, "prog", None)
     for k in sorted(actual):
         ok = k in allowed_keys
+        how = "`%s` is an allowed %s" % (k, what)
+        if not ok and helpers and prog is not None and prog.get(k) is not None:
+            # a helper extracted from allowed functions: every caller (up to two levels of such helpers) is itself allowed
+            def only_allowed_callers(fn, depth=0):
+                cs = {root_fn(prog, c) for c in callers(prog, fn, passed=True)} - {fn}
+                if not cs:
+                    return False
+                return all(c in allowed_keys or (depth < 2 and only_allowed_callers(c, depth + 1)) for c in cs)
+            if only_allowed_callers(k):
+                ok = True
+                how = "`%s` is a helper whose only callers are allowed %ss" % (k, what)
         ok_all &= ok
         ctx.ob(rule, "%s|%s" % (what, k), ok,
-               ("`%s` is an allowed %s" % (k, what)) if ok else ("`%s` is NOT an allowed %s (allowed: %s)" % (k, what, sorted(allowed_keys))),
+               how if ok else ("`%s` is NOT an allowed %s (allowed: %s)" % (k, what, sorted(allowed_keys))),
                loc=(locs or {}).get(k))
     for k in sorted(required or ()):
         ok = k in actual
